@@ -279,4 +279,126 @@ def PTrie.findAll (pt : PTrie) (text : List Nat) : Option (List (List Nat)) :=
   | none => none
   | some scopes => cutAll text scopes
 
+/-! ### PrefixSearch / FuzzySearch on pointers: explicit stack + shared buffer -/
+
+/-- `trieFrame{r, depth, node}` with `node` a pointer (id). -/
+structure PFrame where
+  r : Int
+  depth : Int
+  node : Nat
+deriving Repr
+
+/-- `for _, ch := range children { stack = append(stack, trieFrame{ch.val, depth, ch.node}) }`
+(top of the Go stack = head of the list, as in `pushFrames`). -/
+def pPushFrames (depth : Int) (children : List (Int × Nat)) (stack : List PFrame) : List PFrame :=
+  (children.map fun ch => (⟨ch.1, depth, ch.2⟩ : PFrame)).reverse ++ stack
+
+/-- The `for len(stack) > 0 { … }` loop on pointers: `cur.node.isEnd` / `cur.node.children`
+are read from the store. -/
+def pDfsLoop (pt : PTrie) (w : Int → Int) (enc : Int → List Nat) :
+    Nat → List PFrame → List Nat → List (List Nat) → Option (List (List Nat))
+  | 0, _, _, _ => none
+  | _ + 1, [], _, ret => some ret
+  | fuel + 1, cur :: stack, buf, ret =>
+    match pt.nodes[cur.node]? with
+    | none => none
+    | some nd =>
+      let buf := buf ++ enc cur.r
+      let ret := if nd.isEnd then ret ++ [buf] else ret
+      match nd.children with
+      | [] =>
+        match stack with
+        | [] => some ret                       -- break
+        | nxt :: _ =>
+          let back := cur.depth + w cur.r - nxt.depth
+          match truncate? buf ((buf.length : Int) - back) with
+          | none => none
+          | some buf' => pDfsLoop pt w enc fuel stack buf' ret
+      | ch :: chs => pDfsLoop pt w enc fuel (pPushFrames (cur.depth + w cur.r) (ch :: chs) stack) buf ret
+
+/-- Walk the key from the root without fallback (`PrefixSearch`): inner `none` = `return nil`. -/
+def pDescend (pt : PTrie) : List Step → Nat → Option (Option Nat)
+  | [], node => some (some node)
+  | (v, _) :: rest, node =>
+    match pt.nodes[node]? with
+    | none => none
+    | some nd =>
+      match index nd.vals v with
+      | none => none
+      | some none => some none
+      | some (some idx) =>
+        match nd.children[idx]? with
+        | none => none
+        | some ch => pDescend pt rest ch.2
+
+def pPrefixSearchWith (dec : List Nat → Step) (w : Int → Int) (enc : Int → List Nat)
+    (pt : PTrie) (key : List Nat) : Option (List (List Nat)) :=
+  match pDescend pt (decodeAllWith dec key) 0 with
+  | none => none
+  | some none => some []
+  | some (some node) =>
+    match pt.nodes[node]? with
+    | none => none
+    | some nd =>
+      match nd.children with
+      | [] => if nd.isEnd then some [key] else some []
+      | ch :: chs =>
+        let ret := if nd.isEnd then [key] else []
+        pDfsLoop pt w enc (pt.nodes.length + 1) (pPushFrames 0 (ch :: chs) []) key ret
+
+/-- Walk the key with fallback (`FuzzySearch`): inner `none` = `return nil`. -/
+def pFuzzyDescend (pt : PTrie) : List Step → Nat → Option (Option Nat)
+  | [], node => some (some node)
+  | (v, _) :: rest, node =>
+    match pFallback pt node v with
+    | none => none
+    | some (_, none) => some none
+    | some (node, some idx) =>
+      match pChildAt pt node idx with
+      | none => none
+      | some node' => pFuzzyDescend pt rest node'
+
+/-- `for node != &t.root { buf.WriteString(key[len(key)-node.size:]); … ; buf.Reset(); node = node.fail }`. -/
+def pFuzzyOuter (pt : PTrie) (w : Int → Int) (enc : Int → List Nat) (key : List Nat) :
+    Nat → Nat → List (List Nat) → Option (List (List Nat))
+  | 0, _, _ => none
+  | fuel + 1, node, ret =>
+    if node ≠ 0 then
+      match pt.nodes[node]? with
+      | none => none
+      | some nd =>
+        match sliceInt? key ((key.length : Int) - nd.size) key.length with
+        | none => none
+        | some suffix =>
+          let ret := if nd.isEnd then ret ++ [suffix] else ret
+          match pDfsLoop pt w enc (pt.nodes.length + 1) (pPushFrames 0 nd.children []) suffix ret with
+          | none => none
+          | some ret' =>
+            match nd.fail with
+            | none => none                    -- nil pointer dereference in the loop test's successor
+            | some m => pFuzzyOuter pt w enc key fuel m ret'
+    else some ret
+
+def pFuzzySearchWith (dec : List Nat → Step) (w : Int → Int) (enc : Int → List Nat)
+    (pt : PTrie) (key : List Nat) : Option (List (List Nat)) :=
+  if key.isEmpty then pPrefixSearchWith dec w enc pt key
+  else
+    match pFuzzyDescend pt (decodeAllWith dec key) 0 with
+    | none => none
+    | some none => some []
+    | some (some node) =>
+      match pt.nodes[node]? with
+      | none => none
+      | some nd =>
+        if nd.children.isEmpty ∧ nd.fail = some 0 then
+          if nd.isEnd then
+            (sliceInt? key ((key.length : Int) - nd.size) key.length).map fun s => [s]
+          else some []
+        else pFuzzyOuter pt w enc key (pt.nodes.length + 1) node []
+
+def PTrie.prefixSearch (pt : PTrie) (key : List Nat) : Option (List (List Nat)) :=
+  pPrefixSearchWith decodeStep runeWidth writeRune pt key
+def PTrie.fuzzySearch (pt : PTrie) (key : List Nat) : Option (List (List Nat)) :=
+  pFuzzySearchWith decodeStep runeWidth writeRune pt key
+
 end Golib.C05
